@@ -1,8 +1,637 @@
 import QP.Base
+import QP.Model.PT
+/-!
+# C07 — symbolic integral, initial and final values agree with the instantiated pulse
+
+Program side (mirrors the code that exists): the closed forms `integral`, `initial_values`, `final_values`
+of every pulse template class, as *evaluators* `integralOf`, `endOf .first` (`initialOf`), `endOf .last`
+(`finalOf`) `: PT → Scope → Chan → Except Err Rat`.  The real code builds a sympy expression and the user
+evaluates it at concrete parameters; substitution of a loop index / of mapped parameters into the body's
+expression is modelled by evaluating the body in a `RangeScope` / `MappedScope` (the two agree because sympy's
+`subs` is capture avoiding and `MappingPT` substitutes simultaneously).  `sympy.integrate` of a function
+template is modelled for expressions affine in `t` only (`a·d + (b-a)·d²/2`); `Sum(f, (i, 0, n))` is `sumRange`.
+
+* `ForLoopPulseTemplate.final_values` is modelled as the code has it (PF-09, open finding):
+  index `start + Max(floor((stop-start)/step) - 1, 0)·step`.
+* `ForLoopPulseTemplate.integral` is modelled with the repair `fixes/PF-09b.diff` (an empty range yields 0).
+
+Spec side: `plIntegral` (Σ len·(v0+v1)/2), `plEnd .first/.last` (start value of the first / end value of
+the last piece) of the segment lists of `QP.PT.denote`; `padTo`.
+
+Known-class predicate: `pathTags` (which of the documented classes the initial / final path of a template
+runs through at the given parameters), `regular` (durations and counts non-negative, integers exact).
+-/
 namespace QP.C07
+open QP QP.PT
+
+/-! ## Spec side: integral, first and last value of a piecewise linear function -/
+
+/-- `∫` of a piecewise linear function: Σ len·(v0+v1)/2 -/
+def plIntegral : PL → Rat
+  | [] => 0
+  | s :: rest => s.len * (s.v0 + s.v1) / 2 + plIntegral rest
+
+inductive End where | first | last
+  deriving Repr, BEq, DecidableEq, Inhabited
+
+/-- end value of the last piece -/
+def plLast : PL → Option Rat
+  | [] => none
+  | [s] => some s.v1
+  | _ :: s :: rest => plLast (s :: rest)
+
+/-- `.first`: the value the first piece starts with (the voltage at time zero);
+`.last`: the value the last piece ends on -/
+def plEnd : End → PL → Option Rat
+  | .first, [] => none
+  | .first, s :: _ => some s.v0
+  | .last, pl => plLast pl
+
+/-- the piecewise linear function of one channel of a pulse (`[]` if the channel is absent) -/
+def pulseVal (p : Pulse) (ch : Chan) : PL := (p.chans.lookup ch).getD []
+
+/-! ## Program side: the closed forms -/
+
+def keyOf {α} : Option α → Except Err α
+  | some a => .ok a
+  | none => .error .keyError
+
+/-- `InterpolationStrategy.evaluate_integral(t0, v0, t1, v1)` -/
+def interpIntegral (i : Interp) (t0 v0 t1 v1 : Rat) : Rat :=
+  match i with
+  | .hold => v0 * (t1 - t0)
+  | .jump => v1 * (t1 - t0)
+  | .linear => (t1 - t0) * (v0 + v1) / 2
+
+/-- `TableEntry._sequence_integral`: every pair of consecutive entries contributes the integral of the
+*second* entry's interpolation strategy -/
+def sequenceIntegral : List WEntry → Rat
+  | e1 :: e2 :: rest => interpIntegral e2.interp e1.t e1.v e2.t e2.v + sequenceIntegral (e2 :: rest)
+  | _ => 0
+
+/-- `Sum(f(i), (i, 0, n-1))` -/
+def sumRange (f : Nat → Except Err Rat) : Nat → Except Err Rat
+  | 0 => .ok 0
+  | n + 1 => do let a ← sumRange f n; let b ← f n; pure (a + b)
+
+/-- the function template's expression at time `t` -/
+def funcAt (σ : Scope) (e : Expr) (t : Rat) : Except Err Rat :=
+  e.eval (fun x => if x = "t" then .ok t else
+    match σ.look x with
+    | .ok v => .ok v
+    | .error .parameterMissing => .error .valueError
+    | .error err => .error err)
+
+/-- value of channel number `i` of a point pulse entry -/
+def pointValue (σ : Scope) (e : PEntry) (i : Nat) : Except Err Rat :=
+  if e.bcast then (match e.vs with | [v] => σ.eval v | _ => .error .unsupported)
+  else match e.vs[i]? with
+    | some v => σ.eval v
+    | none => .error .valueError
+
+def instPoint (σ : Scope) (i : Nat) (es : List PEntry) : Except Err (List WEntry) :=
+  es.mapM (fun e => do let t ← σ.eval e.t; let v ← pointValue σ e i; pure { t := t, v := v, interp := e.interp })
+
+/-- `MappingPulseTemplate._apply_mapping_to_inner_channel_dict`: the inner channel that is mapped to `ch` -/
+def innerChan (body : PT) (cm' : List (Chan × Option Chan)) (ch : Chan) : Option Chan :=
+  body.definedChannels.find? (fun c => (match cm'.lookup c with | some o => o | none => some c) == some ch)
+
+/-- the scalar operand of an `ArithmeticPulseTemplate` on channel `ch` (`_scalar_as_dict`) -/
+def scalarOn (body : PT) (scalar : Scalar) (ch : Chan) : Option Expr :=
+  match scalar with
+  | .uniform e => if body.definedChannels.contains ch then some e else none
+  | .perChan m => m.lookup ch
+
+def scalarTimeDependent : Scalar → Bool
+  | .uniform e => e.vars.contains "t"
+  | .perChan m => m.any (fun (_, e) => e.vars.contains "t")
+
+/-- `ArithmeticPulseTemplate._apply_operation_to_channel_dict` on one channel: `ptv` / `scv` are the values
+of the template operand and of the scalar operand on that channel where they have one -/
+def arithCombine (op : AOp) (ptIsLhs : Bool) (ptv scv : Option Rat) : Except Err Rat :=
+  let both (l r : Rat) : Except Err Rat := match op with
+    | .plus => .ok (l + r)
+    | .minus => .ok (l - r)
+    | .times => .ok (l * r)
+    | .div => if ptIsLhs then (if r = 0 then .error .zeroDivision else .ok (l / r)) else .error .typeError
+  let rhsOnly (r : Rat) : Except Err Rat := match op with
+    | .plus => .ok r
+    | .minus => .ok (-r)
+    | .times => .ok r
+    | .div => if ptIsLhs then (if r = 0 then .error .zeroDivision else .ok (1 / r)) else .error .typeError
+  if ptIsLhs then
+    match ptv, scv with
+    | some p, some s => both p s
+    | some p, none => .ok p
+    | none, some s => rhsOnly s
+    | none, none => .error .keyError
+  else
+    match scv, ptv with
+    | some s, some p => both s p
+    | some s, none => .ok s
+    | none, some p => rhsOnly p
+    | none, none => .error .keyError
+
+mutual
+/-- `pt.integral[ch]` evaluated in the scope `σ` -/
+def integralOf : PT → Scope → Chan → Except Err Rat
+  | .const _ dur amps _, σ, ch => do
+      let e ← keyOf (amps.lookup ch)
+      let d ← σ.eval dur
+      let v ← σ.eval e
+      pure (d * v)
+  | .table id entries meas cons, σ, ch => do
+      let es ← keyOf (entries.lookup ch)
+      let ws ← instEntries σ es
+      match ws, lastEntry? ws with
+      | w :: _, some l => do
+          let D ← templateDuration (.table id entries meas cons) σ
+          pure (sequenceIntegral ({ t := 0, v := w.v, interp := .hold } :: ws ++ [{ t := D, v := l.v, interp := .hold }]))
+      | _, _ => .error .valueError
+  | .point _ chans entries _ _, σ, ch =>
+      if !chans.contains ch then .error .keyError else do
+      let ws ← instPoint σ (chans.idxOf ch) entries
+      match ws with
+      | w :: _ => pure (sequenceIntegral ({ t := 0, v := w.v, interp := .hold } :: ws))
+      | [] => .error .valueError
+  | .func _ c dur e _ _, σ, ch =>
+      if c ≠ ch then .error .keyError
+      else if !(e.affineIn "t") then .error .unsupported
+      else do
+        let d ← σ.eval dur
+        let a ← funcAt σ e 0
+        let b ← funcAt σ e 1
+        pure (a * d + (b - a) * d * d / 2)
+  | .seq _ subs _ _, σ, ch =>
+      if !(PT.firstChannels subs).contains ch then .error .keyError else integralSum subs σ ch
+  | .rep _ body count _ _, σ, ch => do
+      let c ← σ.eval count
+      let v ← integralOf body σ ch
+      pure (c * v)
+  | .forLoop _ body idx start stop step _ _, σ, ch => do
+      let a ← σ.eval start
+      let b ← σ.eval stop
+      let s ← σ.eval step
+      if s = 0 then .error .zeroDivision else
+      let stepCount : Int := ((b - a) / s).ceil
+      -- PF-09b repaired: `Piecewise((0, step_count <= 0), (Sum(...), True))`
+      if stepCount ≤ 0 then pure 0 else
+      sumRange (fun (k : Nat) => integralOf body (.range σ idx (a + (k : Rat) * s)) ch)
+        ((if stepCount ≤ 1 then 1 else stepCount) - 1 + 1).toNat
+  | .mapping _ body pm _ cm' _, σ, ch => do
+      let c ← keyOf (innerChan body cm' ch)
+      integralOf body (.mapped σ pm) c
+  | .parallel _ body over, σ, ch =>
+      match over.lookup ch with
+      | some e => do
+          let v ← σ.eval e
+          let d ← templateDuration body σ
+          pure (v * d)
+      | none => integralOf body σ ch
+  | .atomicMulti _ subs _ _ _, σ, ch => integralMulti subs σ ch
+  | .arith _ body op scalar ptIsLhs, σ, ch =>
+      if scalarTimeDependent scalar then .error .unsupported else do
+      let ptv ← if body.definedChannels.contains ch then (do let v ← integralOf body σ ch; pure (some v))
+                else pure none
+      let scv ← match scalarOn body scalar ch with
+        | none => pure none
+        | some e => do
+            let v ← σ.eval e
+            match op with
+            | .plus | .minus => do let d ← templateDuration body σ; pure (some (v * d))
+            | .times | .div => pure (some v)
+      arithCombine op ptIsLhs ptv scv
+  | .arithAtomic _ lhs minus rhs _, σ, ch =>
+      if lhs.definedChannels.contains ch then do
+        let l ← integralOf lhs σ ch
+        if rhs.definedChannels.contains ch then do
+          let r ← integralOf rhs σ ch
+          pure (if minus then l - r else l + r)
+        else pure l
+      else if rhs.definedChannels.contains ch then do
+        let r ← integralOf rhs σ ch
+        pure (if minus then -r else r)
+      else .error .keyError
+  | .timeReversal _ body, σ, ch => integralOf body σ ch
+/-- `SequencePulseTemplate.integral`: the sum over all sub-templates -/
+def integralSum : List PT → Scope → Chan → Except Err Rat
+  | [], _, _ => .ok 0
+  | p :: ps, σ, ch => do
+      let a ← integralOf p σ ch
+      let b ← integralSum ps σ ch
+      pure (a + b)
+/-- `AtomicMultiChannelPulseTemplate.integral`: `dict.update` in order, a later sub-template wins -/
+def integralMulti : List PT → Scope → Chan → Except Err Rat
+  | [], _, _ => .error .keyError
+  | p :: ps, σ, ch =>
+      if (PT.allChannels ps).contains ch then integralMulti ps σ ch
+      else if p.definedChannels.contains ch then integralOf p σ ch
+      else .error .keyError
+end
+
+mutual
+/-- does `pt.initial_values` / `pt.final_values` exist (no `NotImplementedError` on the way)? -/
+def provides (e : End) : PT → Bool
+  | .const .. | .table .. | .point .. | .func .. => true
+  | .seq _ subs _ _ => providesEnd e subs
+  | .rep _ body _ _ _ => provides e body
+  | .forLoop _ body _ _ _ _ _ _ => provides e body
+  | .mapping _ body _ _ _ _ => provides e body
+  | .parallel _ body _ => provides e body
+  | .atomicMulti _ subs _ _ _ => providesAll e subs
+  | .arith _ body _ _ _ => provides e body
+  | .arithAtomic _ lhs _ rhs _ => provides e lhs && provides e rhs
+  | .timeReversal .. => false
+/-- the first (`.first`) / last (`.last`) sub-template provides it -/
+def providesEnd (e : End) : List PT → Bool
+  | [] => false
+  | [p] => provides e p
+  | p :: q :: rest => match e with
+      | .first => provides e p
+      | .last => providesEnd e (q :: rest)
+def providesAll (e : End) : List PT → Bool
+  | [] => true
+  | p :: ps => provides e p && providesAll e ps
+end
+
+mutual
+/-- `pt.initial_values[ch]` (`e = .first`) and `pt.final_values[ch]` (`e = .last`) evaluated in `σ` -/
+def endOf (e : End) : PT → Scope → Chan → Except Err Rat
+  | .const _ _ amps _, σ, ch => do
+      let x ← keyOf (amps.lookup ch)
+      σ.eval x
+  | .table _ entries _ _, σ, ch => do
+      let es ← keyOf (entries.lookup ch)
+      match e with
+      | .first => (match es with | x :: _ => σ.eval x.v | [] => .error .valueError)
+      | .last => (match es.getLast? with | some x => σ.eval x.v | none => .error .valueError)
+  | .point _ chans entries _ _, σ, ch =>
+      if !chans.contains ch then .error .keyError else
+      match e with
+      | .first => (match entries with | x :: _ => pointValue σ x (chans.idxOf ch) | [] => .error .valueError)
+      | .last => (match entries.getLast? with | some x => pointValue σ x (chans.idxOf ch) | none => .error .valueError)
+  | .func _ c dur x _ _, σ, ch =>
+      if c ≠ ch then .error .keyError else
+      match e with
+      | .first => funcAt σ x 0
+      | .last => do let d ← σ.eval dur; funcAt σ x d
+  | .seq _ subs _ _, σ, ch => endOfEnd e subs σ ch
+  | .rep _ body _ _ _, σ, ch => endOf e body σ ch
+  | .forLoop _ body idx start stop step _ _, σ, ch =>
+      match e with
+      | .first => do
+          let a ← σ.eval start
+          endOf e body (.range σ idx a) ch
+      | .last => do
+          let a ← σ.eval start
+          let s ← σ.eval step
+          let b ← σ.eval stop
+          if s = 0 then .error .zeroDivision else
+          -- PF-09: `n = (stop - start) // step; final_idx = start + Max(n - 1, 0) * step`
+          let n : Int := ((b - a) / s).floor
+          let k : Int := if n - 1 ≤ 0 then 0 else n - 1
+          endOf e body (.range σ idx (a + (k : Rat) * s)) ch
+  | .mapping _ body pm _ cm' _, σ, ch => do
+      let c ← keyOf (innerChan body cm' ch)
+      endOf e body (.mapped σ pm) c
+  | .parallel _ body over, σ, ch =>
+      if !(provides e body) then .error .unsupported else
+      match over.lookup ch with
+      | some x => σ.eval x
+      | none => endOf e body σ ch
+  | .atomicMulti _ subs _ _ _, σ, ch =>
+      if !(providesAll e subs) then .error .unsupported else endOfMulti e subs σ ch
+  | .arith _ body op scalar ptIsLhs, σ, ch => do
+      let ptv ← if body.definedChannels.contains ch then (do let v ← endOf e body σ ch; pure (some v))
+                else if provides e body then pure none else .error .unsupported
+      let scv ← match scalarOn body scalar ch with
+        | none => pure none
+        | some x => do let v ← σ.eval x; pure (some v)
+      arithCombine op ptIsLhs ptv scv
+  | .arithAtomic _ lhs minus rhs _, σ, ch =>
+      if !(provides e lhs && provides e rhs) then .error .unsupported else
+      if lhs.definedChannels.contains ch then do
+        let l ← endOf e lhs σ ch
+        if rhs.definedChannels.contains ch then do
+          let r ← endOf e rhs σ ch
+          pure (if minus then l - r else l + r)
+        else pure l
+      else if rhs.definedChannels.contains ch then do
+        let r ← endOf e rhs σ ch
+        pure (if minus then -r else r)
+      else .error .keyError
+  | .timeReversal .., _, _ => .error .unsupported
+/-- `SequencePulseTemplate.initial_values / final_values`: of the first / the last sub-template -/
+def endOfEnd (e : End) : List PT → Scope → Chan → Except Err Rat
+  | [], _, _ => .error .valueError
+  | [p], σ, ch => endOf e p σ ch
+  | p :: q :: rest, σ, ch => match e with
+      | .first => endOf e p σ ch
+      | .last => endOfEnd e (q :: rest) σ ch
+def endOfMulti (e : End) : List PT → Scope → Chan → Except Err Rat
+  | [], _, _ => .error .keyError
+  | p :: ps, σ, ch =>
+      if (PT.allChannels ps).contains ch then endOfMulti e ps σ ch
+      else if p.definedChannels.contains ch then endOf e p σ ch
+      else .error .keyError
+end
+
+abbrev initialOf (pt : PT) (σ : Scope) (ch : Chan) : Except Err Rat := endOf .first pt σ ch
+abbrev finalOf (pt : PT) (σ : Scope) (ch : Chan) : Except Err Rat := endOf .last pt σ ch
+
+/-! ## `pad_to` -/
+
+/-- `PulseTemplate.pad_to(new_duration)` at the parameters `σ`: the template followed by a constant template
+of duration `new_duration - self.duration` holding `self.final_values` (both evaluated at `σ`; the real code
+builds the same constant template symbolically and evaluates it in the same scope) -/
+def padTo (pt : PT) (σ : Scope) (newDur : Rat) : Except Err PT := do
+  let D ← templateDuration pt σ
+  let fv ← pt.definedChannels.mapM (fun c => do let v ← finalOf pt σ c; pure (c, Expr.lit v))
+  pure (.seq none [pt, .const none (.lit (newDur - D)) fv []] [] [])
+
+/-! ## Regular parameter assignments and the documented classes -/
+
+def isInt (q : Rat) : Bool := q.den == 1
+
+def evalsTo (σ : Scope) (e : Expr) (p : Rat → Bool) : Bool :=
+  match σ.eval e with
+  | .ok v => p v
+  | .error _ => false
+
+mutual
+/-- durations, entry times and repetition counts are non-negative, the entry times of a table do not decrease, counts
+and loop ranges are exact integers (the code accepts values within 1e-6 of an integer, instantiates negative
+durations / counts as the empty pulse and does not look at the entries of a table of duration 0) -/
+def regular : PT → Scope → Bool
+  | .const _ dur _ _, σ => evalsTo σ dur (fun d => decide (0 ≤ d))
+  | .table _ entries _ _, σ => entries.all (fun x => match instEntries σ x.2 with
+      | .ok ws => sortedTimes ws && ws.all (fun w => decide (0 ≤ w.t))
+      | .error _ => false)
+  | .point _ _ entries _ _, σ => entries.all (fun x => evalsTo σ x.t (fun t => decide (0 ≤ t)))
+  | .func _ _ dur _ _ _, σ => evalsTo σ dur (fun d => decide (0 ≤ d))
+  | .seq _ subs _ _, σ => regularAll subs σ
+  | .rep _ body count _ _, σ => evalsTo σ count (fun c => isInt c && decide (0 ≤ c)) && regular body σ
+  | .forLoop _ body idx start stop step _ _, σ =>
+      match σ.eval start, σ.eval stop, σ.eval step with
+      | .ok a, .ok b, .ok s =>
+          isInt a && isInt b && isInt s && decide (s ≠ 0) &&
+          (pyRange a.num b.num s.num).all (fun (i : Int) => regular body (.range σ idx (i : Rat)))
+      | _, _, _ => false
+  | .mapping _ body pm _ _ _, σ => regular body (.mapped σ pm)
+  | .parallel _ body _, σ => regular body σ
+  | .atomicMulti _ subs _ _ _, σ => regularAll subs σ
+  | .arith _ body _ _ _, σ => regular body σ
+  | .arithAtomic _ lhs _ rhs _, σ => regular lhs σ && regular rhs σ
+  | .timeReversal _ body, σ => regular body σ
+def regularAll : List PT → Scope → Bool
+  | [], _ => true
+  | p :: ps, σ => regular p σ && regularAll ps σ
+end
+
+/-- documented classes on the initial / final path of a template -/
+inductive Tag where
+  /-- PF-09: `ForLoopPulseTemplate.final_values` evaluates the body at an index that is not the last one -/
+  | pf09
+  /-- the sub-template / iteration the closed form reads is empty at these parameters -/
+  | emptyPart
+  /-- a table whose first played value is not its first entry's value (`jump` or zero length first segment) -/
+  | tableStart
+  /-- a table whose last played value is not its last entry's value (`hold` or zero length last segment):
+  the template *specifies* the entry's value at its end -/
+  | tableEnd
+  deriving Repr, BEq, DecidableEq, Inhabited
+
+def Tag.name : Tag → String
+  | .pf09 => "pf09" | .emptyPart => "empty-part" | .tableStart => "table-start" | .tableEnd => "table-end"
+
+/-- the part plays nothing on (the outer channel of) `ch`: it is the empty pulse or has zero duration -/
+def chanEmpty (r : Except Err Pulse) (cm : List (Chan × Option Chan)) (ch : Chan) : Bool :=
+  match r, cm.lookup ch with
+  | .ok p, some (some o) => (pulseVal p o).isEmpty
+  | _, _ => false
+
+def tableTags (e : End) (ws : List WEntry) (orig : List WEntry) : List Tag :=
+  match e with
+  | .first => (match orig with
+      | w :: _ => if plEnd .first (entriesToPL ws) == some w.v then [] else [.tableStart]
+      | [] => [])
+  | .last => (match lastEntry? orig with
+      | some w => if plEnd .last (entriesToPL ws) == some w.v then [] else [.tableEnd]
+      | none => [])
+
+mutual
+/-- the documented classes the path of `initial_values` (`.first`) / `final_values` (`.last`) runs through -/
+def pathTags (e : End) : PT → Scope → List (MName × Option MName) → List (Chan × Option Chan) → Chan →
+    Except Err (List Tag)
+  | .const .., _, _, _, _ => .ok []
+  | .func .., _, _, _, _ => .ok []
+  | .table _ entries _ _, σ, _, _, ch => do
+      let inst ← tableInstantiate σ entries
+      let es ← keyOf (entries.lookup ch)
+      let orig ← instEntries σ es
+      match inst.lookup ch with
+      | some ws => pure (tableTags e ws orig)
+      | none => pure [Tag.emptyPart]   -- a table of duration 0 plays nothing
+  | .point _ chans entries _ _, σ, _, _, ch => do
+      let orig ← instPoint σ (chans.idxOf ch) entries
+      let ws := match orig with
+        | w :: _ => if w.t > 0 then { t := 0, v := w.v, interp := .hold } :: orig else orig
+        | [] => orig
+      pure (tableTags e ws orig)
+  | .seq _ subs _ _, σ, mm, cm, ch => pathTagsEnd e subs σ mm cm ch
+  | .rep _ body _ _ _, σ, mm, cm, ch => pathTags e body σ mm cm ch
+  | .forLoop _ body idx start stop step _ _, σ, mm, cm, ch => do
+      let a ← σ.eval start
+      let b ← σ.eval stop
+      let s ← σ.eval step
+      if s = 0 then .error .zeroDivision else
+      match e with
+      | .first =>
+          (match pyRange a.num b.num s.num with
+           | [] => pure []
+           | i0 :: _ => do
+              let rest ← pathTags e body (.range σ idx a) mm cm ch
+              pure ((if chanEmpty (denote body (.range σ idx (i0 : Rat)) mm cm) cm ch then [Tag.emptyPart] else []) ++ rest))
+      | .last =>
+          (match (pyRange a.num b.num s.num).getLast? with
+           | none => pure []
+           | some iLast => do
+              let n : Int := ((b - a) / s).floor
+              let k : Int := if n - 1 ≤ 0 then 0 else n - 1
+              let idxCode : Rat := a + (k : Rat) * s
+              let rest ← pathTags e body (.range σ idx idxCode) mm cm ch
+              pure ((if idxCode = (iLast : Rat) then [] else [Tag.pf09]) ++
+                    (if chanEmpty (denote body (.range σ idx (iLast : Rat)) mm cm) cm ch then [Tag.emptyPart] else []) ++ rest))
+  | .mapping _ body pm mm' cm' _, σ, mm, cm, ch => do
+      let c ← keyOf (innerChan body cm' ch)
+      let mmU ← updatedMm mm' mm
+      let cmU ← updatedCm cm' cm
+      pathTags e body (.mapped σ pm) mmU cmU c
+  | .parallel _ body over, σ, mm, cm, ch =>
+      match over.lookup ch with
+      | some _ => .ok []
+      | none => pathTags e body σ mm cm ch
+  | .atomicMulti _ subs _ _ _, σ, mm, cm, ch => pathTagsMulti e subs σ mm cm ch
+  | .arith _ body _ _ _, σ, mm, cm, ch =>
+      if body.definedChannels.contains ch then pathTags e body σ mm cm ch else .ok []
+  | .arithAtomic _ lhs _ rhs _, σ, mm, cm, ch => do
+      let l ← if lhs.definedChannels.contains ch then pathTags e lhs σ mm cm ch else pure []
+      let r ← if rhs.definedChannels.contains ch then pathTags e rhs σ mm cm ch else pure []
+      let le := chanEmpty (denote lhs σ mm cm) cm ch
+      let re := chanEmpty (denote rhs σ mm cm) cm ch
+      pure ((if le != re then [Tag.emptyPart] else []) ++ l ++ r)
+  | .timeReversal .., _, _, _, _ => .ok []
+def pathTagsEnd (e : End) : List PT → Scope → List (MName × Option MName) → List (Chan × Option Chan) → Chan →
+    Except Err (List Tag)
+  | [], _, _, _, _ => .ok []
+  | [p], σ, mm, cm, ch => do
+      let rest ← pathTags e p σ mm cm ch
+      pure ((if chanEmpty (denote p σ mm cm) cm ch then [Tag.emptyPart] else []) ++ rest)
+  | p :: q :: more, σ, mm, cm, ch => match e with
+      | .first => do
+          let rest ← pathTags e p σ mm cm ch
+          pure ((if chanEmpty (denote p σ mm cm) cm ch then [Tag.emptyPart] else []) ++ rest)
+      | .last => pathTagsEnd e (q :: more) σ mm cm ch
+def pathTagsMulti (e : End) : List PT → Scope → List (MName × Option MName) → List (Chan × Option Chan) → Chan →
+    Except Err (List Tag)
+  | [], _, _, _, _ => .ok []
+  | p :: ps, σ, mm, cm, ch =>
+      if (PT.allChannels ps).contains ch then pathTagsMulti e ps σ mm cm ch
+      else if p.definedChannels.contains ch then pathTags e p σ mm cm ch
+      else .ok []
+end
+
+/-! ## The fragment the theorems of `QP.Props.C07` cover -/
+
+mutual
+/-- constant, table, function (affine in `t`), sequence, repetition, iteration, mapping and time reversal (integral
+only: it does not implement the end values) templates that satisfy what
+the constructors of the real classes enforce: amplitude keys are distinct (a `dict`), all parts of a sequence
+define the same channels, a channel mapping is total on the body's channels and injective on the kept ones -/
+def supported : PT → Bool
+  | .const _ _ amps _ => !hasDup (amps.map (·.1))
+  | .table .. => true
+  | .func _ _ _ e _ _ => e.affineIn "t"
+  | .seq _ subs _ _ => supportedAll subs && sameChannels (PT.firstChannels subs) subs
+  | .rep _ body _ _ _ => supported body
+  | .forLoop _ body _ _ _ _ _ _ => supported body
+  | .mapping _ body _ _ cm' _ =>
+      supported body && body.definedChannels.all (fun c => (cm'.lookup c).isSome) &&
+      !hasDup (body.definedChannels.filterMap (fun c => match cm'.lookup c with | some (some o) => some o | _ => none)) &&
+      !hasDup body.definedChannels
+  | .timeReversal _ body => supported body
+  | _ => false
+def supportedAll : List PT → Bool
+  | [] => true
+  | p :: ps => supported p && supportedAll ps
+def sameChannels (cs : List Chan) : List PT → Bool
+  | [] => true
+  | p :: ps => sameSet p.definedChannels cs && sameChannels cs ps
+end
+
+/-- the channel mapping sends different channels of `chans` to different targets -/
+def InjOn (cm : List (Chan × Option Chan)) (chans : List Chan) : Prop :=
+  ∀ c1 c2 o, c1 ∈ chans → c2 ∈ chans → cm.lookup c1 = some (some o) → cm.lookup c2 = some (some o) → c1 = c2
+
+/-! ## Line protocol
+
+`(c07 run (pt <PT>) (params (n q)...) [(sampled (ch (len v0 v1)...)...)] [(pad q)])` →
+`((chans c...) (regular b) (tdur r) (model (c (integral r) (initial r) (final r) (provides b b))...)
+  (spec ok|empty|(error cls) (dur q) (c (integral q) (first q|none) (last q|none) (tags-first t...) (tags-last t...))...)
+  (sampled (c (integral q) (first ..) (last ..))...) (pad ...))` with `r = (ok q) | (error cls)`. -/
+
 open Sexp
 
-def handle : List Sexp → Sexp
-  | _ => Sexp.err "c07-not-implemented"
+def resSx : Except Err Rat → Sexp
+  | .ok v => .list [.atom "ok", Sexp.ofRat v]
+  | .error e => errSx e
+
+def optSx : Option Rat → Sexp
+  | some v => Sexp.ofRat v
+  | none => .atom "none"
+
+def tagsSx (name : String) : Except Err (List Tag) → Sexp
+  | .ok ts => .list (.atom name :: ts.map (fun t => .atom t.name))
+  | .error e => .list [.atom name, errSx e]
+
+def plSx (c : Chan) (pl : PL) (extra : List Sexp) : Sexp :=
+  .list ([.atom c, .list [.atom "integral", Sexp.ofRat (plIntegral pl)],
+          .list [.atom "first", optSx (plEnd .first pl)],
+          .list [.atom "last", optSx (plEnd .last pl)]] ++ extra)
+
+def segOf? : Sexp → Option Seg
+  | .list [l, a, b] => do
+      let l ← Sexp.rat? l; let a ← Sexp.rat? a; let b ← Sexp.rat? b
+      some { len := l, v0 := a, v1 := b }
+  | _ => none
+
+def sampledOf? : Sexp → Option (Chan × PL)
+  | .list (.atom c :: segs) => do let pl ← segs.mapM segOf?; some (c, pl)
+  | _ => none
+
+def modelSx (pt : PT) (σ : Scope) : Sexp :=
+  .list (.atom "model" :: pt.definedChannels.map (fun c =>
+    .list [.atom c,
+      .list [.atom "integral", resSx (integralOf pt σ c)],
+      .list [.atom "initial", resSx (initialOf pt σ c)],
+      .list [.atom "final", resSx (finalOf pt σ c)],
+      .list [.atom "provides", Sexp.ofBool (provides .first pt), Sexp.ofBool (provides .last pt)]]))
+
+def specSx (pt : PT) (ctx : Ctx) : Sexp :=
+  match denote pt ctx.scope ctx.mm ctx.cm with
+  | .error e => .list [.atom "spec", errSx e]
+  | .ok p =>
+    if p.isEmpty then .list [.atom "spec", .atom "empty"] else
+    .list (.atom "spec" :: .atom "ok" :: .list [.atom "dur", Sexp.ofRat p.dur] ::
+      p.chans.map (fun (c, pl) => plSx c pl
+        [tagsSx "tags-first" (pathTags .first pt ctx.scope ctx.mm ctx.cm c),
+         tagsSx "tags-last" (pathTags .last pt ctx.scope ctx.mm ctx.cm c)]))
+
+def padSx (pt : PT) (ctx : Ctx) (newDur : Rat) : Sexp :=
+  match padTo pt ctx.scope newDur with
+  | .error e => .list [.atom "pad", errSx e]
+  | .ok padded =>
+    match denote padded ctx.scope ctx.mm ctx.cm with
+    | .error e => .list [.atom "pad", errSx e]
+    | .ok p =>
+      if p.isEmpty then .list [.atom "pad", .atom "empty"] else
+      .list (.atom "pad" :: .atom "ok" :: .list [.atom "dur", Sexp.ofRat p.dur] ::
+        p.chans.map (fun (c, pl) => plSx c pl []))
+
+def handle (args : List Sexp) : Sexp :=
+  match args with
+  | .atom "run" :: rest =>
+    match Request.ofSexp rest with
+    | none => Sexp.err "malformed-request"
+    | some r =>
+      match topCtx r.pt r.params none [] [] with
+      | .error e => .list [.atom "ctx", errSx e]
+      | .ok ctx =>
+        let sampled : List (Chan × PL) := match findField "sampled" rest with
+          | some l => (l.mapM sampledOf?).getD []
+          | none => []
+        let pad : List Sexp := match findField "pad" rest with
+          | some [d] => (match Sexp.rat? d with | some d => [padSx r.pt ctx d] | none => [])
+          | _ => []
+        .list ([.list (.atom "chans" :: r.pt.definedChannels.map Sexp.atom),
+                .list [.atom "regular", Sexp.ofBool (regular r.pt ctx.scope)],
+                .list [.atom "tdur", resSx (templateDuration r.pt ctx.scope)],
+                modelSx r.pt ctx.scope,
+                specSx r.pt ctx,
+                .list (.atom "sampled" :: sampled.map (fun (c, pl) => plSx c pl []))] ++ pad)
+  | .atom "range" :: a :: b :: s :: _ =>
+    -- `range(a, b, s)`: length, last element, the index `final_values` uses
+    match Sexp.int? a, Sexp.int? b, Sexp.int? s with
+    | some a, some b, some s =>
+      if s = 0 then Sexp.err "zero-step" else
+      let r := pyRange a b s
+      let n : Int := (((b - a : Int) : Rat) / (s : Rat)).floor
+      let k : Int := if n - 1 ≤ 0 then 0 else n - 1
+      .list [.list [.atom "len", Sexp.ofNat r.length],
+             .list [.atom "last", match r.getLast? with | some x => Sexp.ofInt x | none => .atom "none"],
+             .list [.atom "count", Sexp.ofInt (((b - a : Int) : Rat) / (s : Rat)).ceil],
+             .list [.atom "final-index", Sexp.ofInt (a + k * s)]]
+    | _, _, _ => Sexp.err "malformed-request"
+  | _ => Sexp.err "unknown-c07-request"
 
 end QP.C07
